@@ -1,0 +1,92 @@
+//go:build verif
+
+package net
+
+// govc contracts for this package (see /verif/DESIGN.md). Comment-only.
+
+// ---------------------------------------------------------------- RCON (C16)
+//
+// Frame: le32(10+len(P)) le32(RequestID) le32(Type) P 00 00
+
+//@ func (*RCONConn).WritePacket(r; RequestID, Type, Payload) (err)
+//@   let wk = sink(r.Conn)
+//@   let l0 = old(Wlen(wk))
+//@   requires len(Payload) <= 4086 && !isnil(r.Conn)
+//@   loop 0: unroll 6
+//@   ensures all(k, 0, l0, Wout(wk, k) == old(Wout(wk, k)))                         [@frame]
+//@   ensures err == nil ==> Wlen(wk) == l0 + 14 + len(Payload)                       [@layout]
+//@   ensures err == nil ==> le32(Woutrow(wk), l0) == uint32(10 + len(Payload)) && le32(Woutrow(wk), l0+4) == uint32(RequestID) && le32(Woutrow(wk), l0+8) == uint32(Type)   [@layout]
+//@   ensures err == nil ==> all(j, 0, len(Payload), Wout(wk, l0+12+j) == Payload[j]) [@layout]
+//@   ensures err == nil ==> Wout(wk, l0+12+len(Payload)) == 0 && Wout(wk, l0+13+len(Payload)) == 0   [@layout]
+//@   ensures Wfail(wk) ==> err != nil                                                [@errprop]
+//@   ensures !Wfail(wk) ==> err == nil                                               [@errprop]
+//@   modifies sink(r.Conn)                                                           [@frame]
+
+//@ func (*RCONConn).ReadPacket(r) (RequestID, Type, Payload, err)
+//@   let st = stream(r.Conn)
+//@   let p0 = old(Spos(st))
+//@   let L = int(int32(le32(Sinrow(st), p0)))
+//@   requires !isnil(r.Conn)
+//@   ensures err == nil ==> 10 <= L && L <= 4096 && Spos(st) == p0 + 4 + L           [@consume]
+//@   ensures err == nil ==> uint32(RequestID) == le32(Sinrow(st), p0+4) && uint32(Type) == le32(Sinrow(st), p0+8)   [@value]
+//@   ensures err == nil ==> len(Payload) == L - 10 && all(j, 0, L - 10, Payload[j] == Sin(st, p0+12+j))            [@value]
+//@   ensures !Sfail(st) && (L < 10 || L > 4096) ==> err != nil                      [@value]
+//@   ensures Sfail(st) ==> err != nil                                                [@errprop]
+//@   ensures !Sfail(st) && 10 <= L && L <= 4096 ==> err == nil                      [@errprop]
+//@   ensures Spos(st) >= p0 && (err != nil && !Sfail(st) ==> Spos(st) == p0 + 4)    [@consume]
+//@   modifies stream(r.Conn)                                                         [@frame]
+
+//@ func (*RCONConn).Cmd(r; cmd) (err)
+//@   let wk = sink(r.Conn)
+//@   let l0 = old(Wlen(wk))
+//@   requires len(cmd) <= 4086 && !isnil(r.Conn)
+//@   ensures err == nil ==> Wlen(wk) == l0 + 14 + len(cmd) && le32(Woutrow(wk), l0) == uint32(10 + len(cmd)) && le32(Woutrow(wk), l0+4) == uint32(r.ReqID) && le32(Woutrow(wk), l0+8) == 2   [@layout]
+//@   ensures err == nil ==> all(j, 0, len(cmd), Wout(wk, l0+12+j) == cmd[j])        [@layout]
+//@   ensures Wfail(wk) ==> err != nil                                                [@errprop]
+//@   modifies sink(r.Conn)                                                           [@frame]
+
+//@ func (*RCONConn).RespCmd(r; resp) (err)
+//@   let wk = sink(r.Conn)
+//@   let l0 = old(Wlen(wk))
+//@   requires len(resp) <= 4086 && !isnil(r.Conn)
+//@   ensures err == nil ==> Wlen(wk) == l0 + 14 + len(resp) && le32(Woutrow(wk), l0) == uint32(10 + len(resp)) && le32(Woutrow(wk), l0+4) == uint32(r.ReqID) && le32(Woutrow(wk), l0+8) == 0   [@layout]
+//@   ensures err == nil ==> all(j, 0, len(resp), Wout(wk, l0+12+j) == resp[j])      [@layout]
+//@   ensures Wfail(wk) ==> err != nil                                                [@errprop]
+//@   modifies sink(r.Conn)                                                           [@frame]
+
+// A response is accepted only under the request id in use and with type 0.
+//@ func (*RCONConn).Resp(r) (resp, err)
+//@   let st = stream(r.Conn)
+//@   let p0 = old(Spos(st))
+//@   let L = int(int32(le32(Sinrow(st), p0)))
+//@   requires !isnil(r.Conn)
+//@   ensures err == nil ==> 10 <= L && L <= 4096 && Spos(st) == p0 + 4 + L && le32(Sinrow(st), p0+4) == uint32(r.ReqID) && le32(Sinrow(st), p0+8) == 0   [@value]
+//@   ensures err == nil ==> len(resp) == L - 10 && all(j, 0, L - 10, resp[j] == Sin(st, p0+12+j))   [@value]
+//@   ensures !Sfail(st) && 10 <= L && L <= 4096 && (le32(Sinrow(st), p0+4) != uint32(r.ReqID) || le32(Sinrow(st), p0+8) != 0) ==> err != nil   [@value]
+//@   ensures Sfail(st) ==> err != nil                                                [@errprop]
+//@   modifies stream(r.Conn)                                                         [@frame]
+
+//@ func (*RCONConn).AcceptCmd(r) (cmd, err)
+//@   let st = stream(r.Conn)
+//@   let p0 = old(Spos(st))
+//@   let L = int(int32(le32(Sinrow(st), p0)))
+//@   requires !isnil(r.Conn)
+//@   ensures err == nil ==> 10 <= L && L <= 4096 && Spos(st) == p0 + 4 + L && le32(Sinrow(st), p0+8) == 2 && uint32(r.ReqID) == le32(Sinrow(st), p0+4)   [@value]
+//@   ensures err == nil ==> len(cmd) == L - 10 && all(j, 0, L - 10, cmd[j] == Sin(st, p0+12+j))     [@value]
+//@   ensures Sfail(st) ==> err != nil                                                [@errprop]
+//@   modifies r.ReqID, stream(r.Conn)                                                [@frame]
+
+// Login (server side): the reply carries the client's request id on success and -1 on
+// rejection; a rejection is reported to the caller as an error.
+//@ func (*RCONConn).AcceptLogin(r; password) (err)
+//@   let st = stream(r.Conn)
+//@   let wk = sink(r.Conn)
+//@   let p0 = old(Spos(st))
+//@   let l0 = old(Wlen(wk))
+//@   let L = int(int32(le32(Sinrow(st), p0)))
+//@   requires !isnil(r.Conn)
+//@   ensures err == nil ==> 10 <= L && L <= 4096 && le32(Sinrow(st), p0+8) == 3 && L - 10 == len(password)        [@value]
+//@   ensures err == nil ==> Wlen(wk) == l0 + 14 && le32(Woutrow(wk), l0) == 10 && le32(Woutrow(wk), l0+4) == le32(Sinrow(st), p0+4) && le32(Woutrow(wk), l0+8) == 2   [@layout]
+//@   ensures err != nil && Wlen(wk) == l0 + 14 && !Wfail(wk) ==> le32(Woutrow(wk), l0+4) == 4294967295          [@layout]
+//@   ensures Sfail(st) || Wfail(wk) ==> err != nil                                   [@errprop]
+//@   modifies r.ReqID, stream(r.Conn), sink(r.Conn)                                  [@frame]
